@@ -93,11 +93,12 @@ type Exec struct {
 	entry    string
 	pin      map[string]string
 	noSummary bool
+	noSummaryFor map[string]bool
 	Effects   func(what, mode string, obj Value)
 }
 
 func NewExec(p *Program, s *Solver, prefix []int) *Exec {
-	return &Exec{P: p, S: s, pcSet: map[int]bool{}, pcVars: map[int]bool{}, pcSeen: map[int]bool{}, globals: map[*ssa.Global]*Cell{}, prefix: prefix, counters: map[string]int{},
+	return &Exec{P: p, S: s, noSummaryFor: map[string]bool{}, pcSet: map[int]bool{}, pcVars: map[int]bool{}, pcSeen: map[int]bool{}, globals: map[*ssa.Global]*Cell{}, prefix: prefix, counters: map[string]int{},
 		InputLbl: map[int]string{}, Reached: map[string]int{}, Funcs: map[*ssa.Function]bool{}, Unwind: 4096, MaxSteps: 20000000,
 		ext: map[string]interface{}{}}
 }
@@ -469,7 +470,7 @@ func (ex *Exec) CallFunction(caller *frame, fn *ssa.Function, args []Value, env 
 	if st, ok := ex.P.GoStub[name]; ok {
 		fn = st
 		env = nil
-	} else if st, ok := ex.P.Summary[name]; ok && !ex.noSummary {
+	} else if st, ok := ex.P.Summary[name]; ok && !ex.noSummary && !ex.noSummaryFor[name] {
 		ex.Notes = appendUniq(ex.Notes, "pure callee replaced by its contract (summary): "+name)
 		fn = st
 		env = nil
